@@ -7,6 +7,8 @@
         pr  <name> <start> <end> <m>                                  cg_poly_elements_general_read             -> d ok <hex elems> <hex offsets>
         ea  <name>                                                    cg_elements_read / cg_poly_elements_read (cgsize_t, cgi_read_int_data) -> d ok <hex I8> [<hex offs I8>]
         pdw <name> <hex I8 parent data, 4*n values>                   cg_parent_data_write                      -> r ok|err
+        epr <name> <start> <end>                                      cg_elements_partial_read with parent data (cgsize_t; fixed-size sections that have parent data) -> d ok <hex I8 elems> <hex I8 parents>
+        pdpw <name> <start> <end> <hex I8 parent data, 4*(end-start+1) values>   cg_parent_data_partial_write (inside the range)  -> r ok|err
         pdr <name> <start> <end> <m>                                  cg_parent_elements_general_read + _position_general_read -> d ok <hex> <hex>
         ei  <name>                                                    -> t <declared type of ElementConnectivity> <range start> <range end> <ElementDataSize>
         reopen
@@ -132,7 +134,12 @@ int main(int argc, char **argv) {
                 if (!S || cg_ElementPartialSize(fn, B, Z, S, start, end, &ds)) { printf("d err\n"); continue; }
                 mem = calloc((size_t)ds + 1, (size_t)tsize[m]); omem = calloc((size_t)n + 2, (size_t)tsize[m]);
                 if (cg_poly_elements_general_read(fn, B, Z, S, start, end, tenum(m), mem, omem)) printf("d err\n");
-                else { printf("d ok "); puthex(mem, (long)ds * tsize[m]); printf(" "); puthex(omem, (n + 1) * tsize[m]); printf("\n"); }
+                else {
+                    /* the elements the returned offsets describe (a whole-range query may report reserved space too) */
+                    long long used = m == T_I4 ? (long long)((int *)omem)[n] : ((long long *)omem)[n];
+                    if (used < 0 || used > (long long)ds) used = (long long)ds;
+                    printf("d ok "); puthex(mem, (long)used * tsize[m]); printf(" "); puthex(omem, (n + 1) * tsize[m]); printf("\n");
+                }
                 free(mem); free(omem);
             }
         } else if (sscanf(line, "ea %63s", name) == 1 && !strncmp(line, "ea ", 3)) {
@@ -162,6 +169,36 @@ int main(int argc, char **argv) {
             } else {
                 int S = sec_index(name); cgsize_t *mem = malloc((size_t)nb + 8); memcpy(mem, raw, (size_t)nb);
                 ier = S ? cg_parent_data_write(fn, B, Z, S, mem) : 1; free(mem);
+            }
+            free(raw); printf(ier ? "r err\n" : "r ok\n");
+        } else if (sscanf(line, "epr %63s %ld %ld", name, &start, &end) == 3 && !strncmp(line, "epr ", 4)) {
+            long n = end - start + 1;
+            if (oracle_mode) {
+                osec *o = sfind(name);
+                if (!o || o->poly || !o->has_pd || start < o->start || end > o->end || n < 1) printf("d err\n");
+                else {
+                    long cnt = o->end - o->start + 1, i0 = start - o->start, i, k; long long *pv = calloc((size_t)4 * n + 1, 8);
+                    for (k = 0; k < 4; k++) for (i = 0; i < n; i++) pv[k * n + i] = o->pd[k * cnt + i0 + i];
+                    printf("d ok "); put_as(o->s, T_I8, o->el + 3 * i0, 3 * n); printf(" "); put_as(o->s, T_I8, pv, 4 * n); printf("\n"); free(pv);
+                }
+            } else {
+                int S = sec_index(name); cgsize_t *mem = calloc((size_t)(3 * n > 0 ? 3 * n : 1) + 1, sizeof(cgsize_t)), *pm = calloc((size_t)(4 * n > 0 ? 4 * n : 1) + 1, sizeof(cgsize_t));
+                if (!S || n < 1 || cg_elements_partial_read(fn, B, Z, S, start, end, mem, pm)) printf("d err\n");
+                else { printf("d ok "); puthex((unsigned char *)mem, 3 * n * 8); printf(" "); puthex((unsigned char *)pm, 4 * n * 8); printf("\n"); }
+                free(mem); free(pm);
+            }
+        } else if (sscanf(line, "pdpw %63s %ld %ld %524000s", name, &start, &end, blob) == 4) {
+            unsigned char *raw; long nb = unhex(blob, &raw), n = end - start + 1; int ier;
+            if (oracle_mode) {
+                osec *o = sfind(name); long cnt = o ? o->end - o->start + 1 : 0, i, k; ier = 1;
+                if (o && o->has_pd && n >= 1 && start >= o->start && end <= o->end && nb == 4 * n * 8) {
+                    const long long *v = (const long long *)raw;
+                    for (k = 0; k < 4; k++) for (i = 0; i < n; i++) o->pd[k * cnt + (start - o->start) + i] = v[k * n + i];
+                    ier = 0;
+                }
+            } else {
+                int S = sec_index(name); cgsize_t *mem = malloc((size_t)nb + 8); memcpy(mem, raw, (size_t)nb);
+                ier = S ? cg_parent_data_partial_write(fn, B, Z, S, start, end, mem) : 1; free(mem);
             }
             free(raw); printf(ier ? "r err\n" : "r ok\n");
         } else if (sscanf(line, "pdr %63s %ld %ld %7s", name, &start, &end, a) == 4) {
